@@ -294,8 +294,6 @@ func c41Deadline(start time.Time, frac float64) time.Time {
 }
 
 func c41Scenario(t *testing.T, name string, reps, depth int, flag bool, deadline time.Time) {
-	infos := map[string]c41Info{}
-	hkey := func(h []c41Ev) string { return fmt.Sprint(h) }
 	key := crdt.GCounterKey("k")
 	if flag {
 		key = crdt.FlagKey("k")
@@ -308,7 +306,7 @@ func c41Scenario(t *testing.T, name string, reps, depth int, flag bool, deadline
 			env.stop()
 		})
 	}
-	exec := func(h []c41Ev) vsched.StepResult {
+	exec := func(h []c41Ev) (vsched.StepResult, c41Info) {
 		var res vsched.StepResult
 		env.reset()
 		r := &c41Run{env: env, key: key, flag: flag, recvd: make([][]time.Time, reps)}
@@ -320,16 +318,11 @@ func c41Scenario(t *testing.T, name string, reps, depth int, flag bool, deadline
 		for i, a := range env.acts {
 			_, info.tomb[i] = a.tombstones[key.ID()]
 		}
-		infos[hkey(h)] = info
 		r.oracle()
 		res.Violations = r.viol
-		return res
+		return res, info
 	}
-	alphabet := func(h []c41Ev) []c41Ev {
-		info := infos[hkey(h)]
-		if len(h) == 0 {
-			info.tomb = make([]bool, reps)
-		}
+	alphabet := func(h []c41Ev, info c41Info) []c41Ev {
 		var evs []c41Ev
 		for i := 0; i < reps; i++ {
 			evs = append(evs, c41Ev{'U', i, 0}, c41Ev{'D', i, 0})
@@ -367,7 +360,7 @@ func TestVerifC41(t *testing.T) {
 	r.Assumption("replicators run as ordinary actors of one non-clustered actor system in a synctest bubble; topic actor, cluster and remoting are replaced by a capture actor and routing fakes, the message handlers are the real ones")
 	r.Assumption("no replicator restart, no snapshot restore (tombstones are neither persisted nor part of a snapshot)")
 	start := time.Now()
-	c41Scenario(t, "c41/flag/r2", 2, vsched.Pick(7, 8), true, c41Deadline(start, 0.5))
-	c41Scenario(t, "c41/gcounter/r2", 2, vsched.Pick(5, 6), false, c41Deadline(start, 0.75))
-	c41Scenario(t, "c41/flag/r3", 3, vsched.Pick(4, 6), true, c41Deadline(start, 1.0))
+	c41Scenario(t, "c41/flag/r2", 2, vsched.Pick(7, 10), true, c41Deadline(start, 0.5))
+	c41Scenario(t, "c41/gcounter/r2", 2, vsched.Pick(5, 7), false, c41Deadline(start, 0.75))
+	c41Scenario(t, "c41/flag/r3", 3, vsched.Pick(4, 7), true, c41Deadline(start, 1.0))
 }
